@@ -277,7 +277,7 @@ def loop (e : Env) : Nat → List Fiber → Nat → Int → List Nat → Outcome
   | fuel+1, fibers, bm, mval, calls =>
     if fibers.isEmpty then .done mval calls
     else
-      match pass e bm 20000 (dedup fibers []) { kept := [], mval := mval, calls := calls } with
+      match pass e bm 4000 (dedup fibers []) { kept := [], mval := mval, calls := calls } with
       | none => .outOfFuel
       | some (_, true) => .undefined
       | some (st, false) =>
